@@ -334,19 +334,19 @@ func correspondence(o *hx.Opts, rng *rand.Rand, res *hx.Result, cw *hx.CaseWrite
 		}
 		cw.Add(func(id int) string { return strings.Replace(term, "@ID@", hx.N(id), 1) }, map[string]interface{}{"kind": kind, "case": js})
 	}
-	for i, n := 0, o.Count(300, 6000); i < n; i++ {
+	for i, n := 0, o.Count(300, 3000); i < n; i++ {
 		t, js, nt := genSort(rng)
 		add("sort", t, js, nt)
 	}
-	for i, n := 0, o.Count(400, 8000); i < n; i++ {
+	for i, n := 0, o.Count(400, 4000); i < n; i++ {
 		t, js, nt := genKeys(rng)
 		add("keys", t, js, nt)
 	}
-	for i, n := 0, o.Count(400, 8000); i < n; i++ {
+	for i, n := 0, o.Count(400, 4000); i < n; i++ {
 		t, js, nt := genMapper(rng)
 		add("mapper", t, js, nt)
 	}
-	for i, n := 0, o.Count(150, 3000); i < n; i++ {
+	for i, n := 0, o.Count(150, 1500); i < n; i++ {
 		t, js, nt, err := genHosts(rng, i)
 		if err != nil {
 			res.Count("corr_hosts_error")
